@@ -27,6 +27,10 @@ THEOREMS = [
     "C03_decode_complete",
     "C03_decode_exact",
     "C03_decode_wf",
+    "C03_decode_steps_result",
+    "C03_decode_steps",
+    "C03_decode_name_steps",
+    "C03_decode_ok_sizes",
 ]
 RULE = ("cases: adversarial families first (short inputs, counts 0xFFFF, self/forward/header pointers, pointer chains "
         "up to the maximal stride-2 chain of 8181 pointers in a NULL RDATA, reserved label types 64..191, labels 63/64, "
